@@ -321,7 +321,7 @@ class C20(Check):
                     raise core.HarnessError('unexpected open(%r, %r)' % (
                         p, mode))
                 sf = SimFile(data, short=case.get('short'),
-                             fault=case.get('fault'), cyclic=True)
+                             fault=case.get('fault'), cyclic=True, name=p)
                 sf.cap = size + 16
                 files.append(sf)
                 return sf
@@ -418,7 +418,8 @@ class C20(Check):
             if i is None or 'b' not in mode:
                 raise core.HarnessError('unexpected open(%r, %r)' % (p, mode))
             sf = YieldingFile(i, content_of(subs[i]['content']),
-                              short=subs[i].get('short'), cyclic=True)
+                              short=subs[i].get('short'), cyclic=True,
+                              name=p)
             files[i] = sf
             return sf
         fu.open = sim_open
@@ -486,7 +487,7 @@ class C20(Check):
         else:
             def sim_open(p, mode='r', *a, **k):
                 sf = SimFile(data, seek_fault={'errno': seek_errno}
-                             if seek_errno else None)
+                             if seek_errno else None, name=p)
                 files.append(sf)
                 return sf
             fu.open = sim_open
